@@ -120,6 +120,64 @@ func (w *world) gatewayScopeFor(ns string) *model.SidecarScope {
 	return p.SidecarScope
 }
 
+// mergedDests: destination hosts of a merged VirtualService (routes, mirrors, tcp, tls).
+func mergedDests(spec *networking.VirtualService) []string {
+	set := map[string]bool{}
+	for _, h := range spec.Http {
+		for _, r := range h.Route {
+			if r.Destination != nil {
+				set[r.Destination.Host] = true
+			}
+		}
+		if h.Mirror != nil {
+			set[h.Mirror.Host] = true
+		}
+		for _, m := range h.Mirrors {
+			if m.Destination != nil {
+				set[m.Destination.Host] = true
+			}
+		}
+	}
+	for _, t := range spec.Tcp {
+		for _, r := range t.Route {
+			set[r.Destination.Host] = true
+		}
+	}
+	for _, t := range spec.Tls {
+		for _, r := range t.Route {
+			set[r.Destination.Host] = true
+		}
+	}
+	var out []string
+	for h := range set {
+		out = append(out, h)
+	}
+	sort.Strings(out)
+	return out
+}
+
+// showMerged: what the real VirtualService controller hands to the PushContext (delegates folded in).
+func (w *world) showMerged() string {
+	var items []string
+	for _, mv := range w.env.VirtualServiceController.MergedVirtualServices() {
+		ds := mergedDests(mv.Spec.(*networking.VirtualService))
+		j := "-"
+		if len(ds) > 0 {
+			e := make([]string, len(ds))
+			for i, d := range ds {
+				e[i] = wire.Enc(d)
+			}
+			j = strings.Join(e, "+")
+		}
+		items = append(items, wire.Enc(mv.Namespace+"/"+mv.Name)+">"+j)
+	}
+	sort.Strings(items)
+	if len(items) == 0 {
+		return "-"
+	}
+	return strings.Join(items, ",")
+}
+
 func (w *world) queryScope(t []string) string {
 	switch {
 	case t[0] == "scope" && len(t) == 3:
@@ -131,6 +189,10 @@ func (w *world) queryScope(t []string) string {
 		return w.queryXDS(t)
 	case t[0] == "xdsgw" && len(t) == 2:
 		return w.queryXDS(t)
+	case t[0] == "vsgw" && len(t) == 3:
+		return showCfgs(w.ps.VirtualServicesForGateway(wire.Dec(t[1]), wire.Dec(t[2])))
+	case t[0] == "merged" && len(t) == 1:
+		return w.showMerged()
 	}
 	return "bad-op"
 }
@@ -288,6 +350,26 @@ func (w *world) drByKey(key string) *drSpec {
 	return nil
 }
 
+// vsBoundDoc: the VirtualService names gateway gw (ns/name): "name" and "./name" mean a gateway of the
+// VirtualService's own namespace.
+func vsBoundDoc(v *vsSpec, gw string) bool {
+	for _, g := range v.gateways {
+		r := g
+		if !v.gwSem && g != "mesh" {
+			switch {
+			case !strings.Contains(g, "/"):
+				r = v.ns + "/" + g
+			case strings.HasPrefix(g, "./"):
+				r = v.ns + "/" + g[2:]
+			}
+		}
+		if r == gw {
+			return true
+		}
+	}
+	return len(v.gateways) == 0 && gw == "mesh"
+}
+
 func vsOnMeshDoc(v *vsSpec) bool {
 	if len(v.gateways) == 0 {
 		return true
@@ -330,9 +412,45 @@ func vsImportedDoc(cfgNs string, hosts []string, v *vsSpec) bool {
 
 // vsDestHostsFor: destination hosts of the routes that can apply to a proxy of namespace ns
 // (a route whose matches all name other source namespaces does not apply).
-func vsDestHostsFor(v *vsSpec, ns string) map[string]bool {
-	out := map[string]bool{}
+// delegateDoc: the delegate a route refers to, if it exists and is exported to the root's namespace
+// (delegate VirtualService: no hosts; exportTo "*" or the root's namespace, "." = the delegate's own).
+func (w *world) delegateDoc(root *vsSpec, ref *[2]string) *vsSpec {
+	dns := ref[0]
+	if dns == "" {
+		dns = root.ns
+	}
+	for i := range w.vss {
+		d := &w.vss[i]
+		if len(d.hosts) == 0 && d.ns == dns && d.name == ref[1] {
+			for _, e := range w.vsExportDoc(d) {
+				if e == "*" || e == root.ns || (e == "." && d.ns == root.ns) {
+					return d
+				}
+			}
+			return nil
+		}
+	}
+	return nil
+}
+
+// httpRoutesDoc: the http routes of a VirtualService with its exported delegates folded in.
+func (w *world) httpRoutesDoc(v *vsSpec) []httpSpec {
+	var out []httpSpec
 	for _, h := range v.http {
+		if h.delegate == nil || v.gwSem {
+			out = append(out, h)
+			continue
+		}
+		if d := w.delegateDoc(v, h.delegate); d != nil {
+			out = append(out, d.http...)
+		}
+	}
+	return out
+}
+
+func (w *world) vsDestHostsFor(v *vsSpec, ns string) map[string]bool {
+	out := map[string]bool{}
+	for _, h := range w.httpRoutesDoc(v) {
 		applies := len(h.srcNs) == 0
 		for _, sn := range h.srcNs {
 			if sn == "" || sn == ns {
@@ -472,7 +590,7 @@ func (w *world) oracleOneScope(sc *model.SidecarScope, ns string, gateway bool, 
 			for _, l := range listeners {
 				for i := range w.vss {
 					v := &w.vss[i]
-					if vsOnMeshDoc(v) && w.vsVisibleDoc(v, ns) && vsImportedDoc(ns, l.hosts, v) && vsDestHostsFor(v, ns)[sp.hostname] {
+					if vsOnMeshDoc(v) && w.vsVisibleDoc(v, ns) && len(v.hosts) > 0 && vsImportedDoc(ns, l.hosts, v) && w.vsDestHostsFor(v, ns)[sp.hostname] {
 						imported = true
 					}
 				}
@@ -683,6 +801,41 @@ func (w *world) oracleScopeQueries() string {
 		case t[0] == "xdsgw" && len(t) == 2:
 			if v := w.oracleRouter(wire.Dec(t[1])); v != "" {
 				return v
+			}
+		case t[0] == "vsgw" && len(t) == 3:
+			ns, gw := wire.Dec(t[1]), wire.Dec(t[2])
+			for _, c := range w.ps.VirtualServicesForGateway(ns, gw) {
+				v := w.vsByKey(c.Namespace + "/" + c.Name)
+				if v == nil {
+					return "vs-unknown " + c.Name
+				}
+				if !w.vsVisibleDoc(v, ns) {
+					return "vs-for-gateway-not-exported " + v.ns + "/" + v.name + " " + ns
+				}
+				if !vsBoundDoc(v, gw) {
+					return "vs-for-gateway-not-bound " + v.ns + "/" + v.name + " " + wire.Enc(gw)
+				}
+			}
+		case t[0] == "merged" && len(t) == 1:
+			for _, mv := range w.env.VirtualServiceController.MergedVirtualServices() {
+				v := w.vsByKey(mv.Namespace + "/" + mv.Name)
+				if v == nil || len(v.hosts) == 0 {
+					return "merged-vs-unknown-or-delegate " + mv.Name
+				}
+				allowed := map[string]bool{}
+				for _, h := range w.httpRoutesDoc(v) {
+					for _, d := range h.dests {
+						allowed[d.host] = true
+					}
+				}
+				for _, d := range v.tcp {
+					allowed[d.host] = true
+				}
+				for _, h := range mergedDests(mv.Spec.(*networking.VirtualService)) {
+					if !allowed[h] {
+						return "delegate-not-exported " + v.ns + "/" + v.name + " " + wire.Enc(h)
+					}
+				}
 			}
 		case t[0] == "xds" && len(t) >= 3:
 			lbl, _ := decLabels(t[2])
